@@ -32,10 +32,10 @@ GRAPHS = {
 # (graph, number of agents, max replica-set size, max departed-set size)
 R_PLANS_QUICK = [
     ("p2", 3, 2, 2), ("p3", 3, 2, 2), ("t3", 3, 2, 2),
-    ("p3", 4, 2, 2), ("t3", 4, 2, 2), ("p4", 4, 2, 2), ("paw", 4, 2, 2),
+    ("p3", 4, 2, 2), ("t3", 4, 2, 2), ("p4", 4, 2, 2), ("paw", 4, 1, 2),
 ]
 R_PLANS_THOROUGH = R_PLANS_QUICK + [
-    ("c4", 4, 3, 3), ("p4", 5, 2, 2), ("paw", 5, 1, 2), ("c4", 5, 1, 2), ("p5", 5, 1, 2), ("p6", 3, 1, 2),
+    ("paw", 4, 2, 2), ("c4", 4, 3, 3), ("p4", 5, 2, 2), ("paw", 5, 1, 2), ("c4", 5, 1, 2), ("p5", 5, 1, 2), ("p6", 3, 1, 2),
 ]
 
 # (graph, number of agents, max replica-set size); every non-empty departed subset of size <= 2; 3 cost menus
